@@ -27,7 +27,7 @@ ASSUMPTIONS = ['the admitted set is taken as observed through geos_within_constr
 EXHAUSTIVE = {'quick': False, 'thorough': False}
 MINIMA = {'quick': {'shared_data_searches': 40, 'compared': 200, 'brute_designs': 3000, 'distinct_nontrivial': 80, 'cases_with_pruning': 8},
           'thorough': {'shared_data_searches': 400, 'compared': 2500, 'brute_designs': 200000, 'distinct_nontrivial': 1000, 'cases_with_pruning': 100}}
-N = {'quick': 400, 'thorough': 3200}
+N = {'quick': 640, 'thorough': 4800}
 CASE_TIMEOUT = {'quick': 300, 'thorough': 1200}
 
 
@@ -49,9 +49,9 @@ def run_case(spec):
   r, g = util.rngs(PROP, spec['seed'], spec['idx'])
   tier = spec['tier']
   maxg = 6 if tier == 'quick' else 8
-  G = r.choice([1, 2, 3, 3, 4, 4, 5, 5, 6] + ([6, 7, 7, 8] if tier == 'thorough' else []))
+  G = r.choice([1, 2, 3, 3, 4, 4, 5, 5, 5, 6, 6] + ([6, 7, 7, 8] if tier == 'thorough' else []))
   G = min(G, maxg)
-  focus = [None, 'budget', 'budget', 'share', 'size', 'ratio', 'volume', None][spec['idx'] % 8]
+  focus = [None, 'budget', 'budget', 'share', 'size', 'ratio', 'volume', 'share'][spec['idx'] % 8]
   cls = 'duplicates' if spec['idx'] % 11 == 0 else ('integer' if spec['idx'] % 13 == 0 else None)
   case = sl.make_case(r, g, G, focus=focus, cls=cls)
   truth = sl.Truth(case)
@@ -62,8 +62,22 @@ def run_case(spec):
   counters['shared_data_searches'] += bool(rec.get('interleaved'))
   desc = sl.describe(case, with_frame=False)
   if not rec['outcome'].ok or rec['designs'] is None or rec['admitted'] is None:
-    return {'nontrivial': False, 'fp': util.fp(desc), 'classes': ['raised'], 'counters': {'search_raised': 1},
-            'outcome': sp.search_failed(rec, 'exhaustive'), 'violations': [], 'sample': None}
+    viol = []
+    cnt = {'search_raised': 1}
+    if rec.get('stage') == 'search' and rec['admitted'] is not None and rec['outcome'].exc_type == 'ValueError':
+      # a ValueError "rejects the input"; that is only coherent with C03 when the oracle cannot score the design
+      # space either (e.g. perfectly correlated twin series) or nothing must be returned
+      bf = util.call(sl.brute_force, truth, rec['admitted'], sl.shadow_params(case))
+      if bf.ok and not bf.value.get('unscorable'):
+        must = [f for f in bf.value['feasible'] if not f['omittable'] and not f['ambiguous'] and not sl.has_nan(f['score'])]
+        cnt['raised_judged'] = 1
+        if must:
+          viol.append(sp.V('raises-on-feasible-input', 'exh:valueerror-although-feasible-designs-exist',
+                           'exhaustive_search raised %s although %d feasible, scorable designs exist (e.g. T=%s C=%s)' % (
+                               rec['outcome'].describe(), len(must), must[0]['t'], must[0]['c'])))
+    return {'nontrivial': False, 'fp': util.fp(desc), 'classes': ['raised'], 'counters': cnt,
+            'outcome': sp.search_failed(rec, 'exhaustive'), 'violations': viol, 'sample': None,
+            'case': sl.describe(case) if viol else None}
   par = sl.shadow_params(case)
   v, info = sp.c03_clauses(case, truth, rec, par)
   violations += v
